@@ -37,8 +37,19 @@ class Tracer:
         self.nops = 0
         self.nslices = 1
         self.pending = []        # decision prefixes still to explore
+        self.known = {}          # (var, bit) -> value decided on this path
 
     def decide(self, key):
+        """decision for the symbolic bit `key` = (var, bitindex) (or None for a one-off test); the same bit is
+        decided once per path.  Returns (value, is_new)."""
+        if key is not None and key in self.known:
+            return self.known[key], False
+        d = self._decide()
+        if key is not None:
+            self.known[key] = d
+        return d, True
+
+    def _decide(self):
         if self.pos < len(self.decisions):
             d = self.decisions[self.pos]
         else:
@@ -57,18 +68,26 @@ class Tracer:
 T = None  # current tracer
 
 
+def test_bit(var, i):
+    d, new = T.decide((var, i))
+    if new:
+        T.events.append(["if", var, i, d])
+    return d
+
+
 class SymVal:
     """result of a load: kind in uint/int/bit/bool/bits/bytes/coins/varuint/addr/cell/maybecell/obj/dict/..."""
 
-    def __init__(self, var, kind, width=None):
-        self.var, self.kind, self.width = var, kind, width
+    def __init__(self, var, kind, width=None, bitindex=0):
+        self.var, self.kind, self.width, self.bitindex = var, kind, width, bitindex
+
+    def __format__(self, spec):
+        return "<sym>"          # only ever used inside error messages
 
     # ---- control
     def __bool__(self):
         if self.kind in ("bit", "bool"):
-            d = T.decide(None)
-            T.events.append(["if", self.var, 0, d])
-            return bool(d)
+            return bool(test_bit(self.var, self.bitindex))
         if self.kind in ("maybecell", "dict", "maybeobj"):
             raise Unsupported(f"truth value of a {self.kind}")
         raise Unsupported(f"truth value of symbolic {self.kind}")
@@ -78,9 +97,7 @@ class SymVal:
         if self.width is None or len(const_bits) != self.width:
             raise Unsupported("comparison of a value with a constant of another width")
         for i, cb in enumerate(const_bits):
-            d = T.decide(None)
-            T.events.append(["if", self.var, i, d])
-            if d != cb:
+            if test_bit(self.var, i) != cb:
                 return False
         return True
 
@@ -130,6 +147,8 @@ class SymVal:
     def __str__(self):
         if self.kind == "bit":
             return SymStrMarker(self)      # str(bit) used to extend a tag string
+        if self.kind == "bits":
+            raise Unsupported("str() of a bit string")
         raise Unsupported("str() of a symbolic value")
 
     def __getattr__(self, name):
@@ -158,7 +177,14 @@ class SymVal:
     def _and(self, other):
         raise Unsupported("bitwise operation on a symbolic value")
 
-    __and__ = __rand__ = __or__ = __xor__ = __lshift__ = __rshift__ = _and
+    def __and__(self, other):
+        if self.kind == "uint" and isinstance(other, int) and other > 0 and other & (other - 1) == 0 \
+                and other < (1 << self.width):
+            return SymVal(self.var, "bit", 1, self.width - other.bit_length())
+        raise Unsupported("bitwise and of a symbolic value with a non-single-bit constant")
+
+    __rand__ = __and__
+    __or__ = __xor__ = __lshift__ = __rshift__ = _and
     __add__ = __radd__ = __sub__ = __mul__ = __lt__ = __le__ = __gt__ = __ge__ = _and
 
 
@@ -183,9 +209,7 @@ class SymBitStr:
         if len(other) != len(self.bits):
             return False
         for (v, i), ch in zip(self.bits, other):
-            d = T.decide(None)
-            T.events.append(["if", v.var, i, d])
-            if d != int(ch):
+            if test_bit(v.var, i) != int(ch):
                 return False
         return True
 
@@ -199,7 +223,7 @@ class SymBitStr:
 
     def __add__(self, other):
         if isinstance(other, SymStrMarker):
-            return SymBitStr(self.bits + [(other.sym, 0)])
+            return SymBitStr(self.bits + [(other.sym, other.sym.bitindex)])
         if isinstance(other, SymBitStr):
             return SymBitStr(self.bits + other.bits)
         raise Unsupported("tag string concatenated with a constant")
@@ -255,6 +279,18 @@ class SymSlice:
     def load_bytes(self, n):
         return self._load("bytes", "bytes", [_w(n)], 8 * _w(n))
 
+    def preload_bit(self):
+        return self._load("bit", "peek_bits", [1], 1)
+
+    def preload_bits(self, n):
+        return self._load("bits", "peek_bits", [_w(n)], _w(n))
+
+    def preload_uint(self, n):
+        return self._load("uint", "peek_uint", [_w(n)], _w(n))
+
+    def preload_bytes(self, n):
+        return self._load("bytes", "peek_bytes", [_w(n)], 8 * _w(n))
+
     def load_coins(self):
         return self._load("coins", "coins")
 
@@ -292,8 +328,9 @@ class SymSlice:
         return self._load("dict", "hashmap", [_w(key_length), sub])
 
     def is_special(self):
-        d = T.decide(None)
-        T.events.append(["ifspecial", self.sid, d])
+        d, new = T.decide(("special", self.sid))
+        if new:
+            T.events.append(["ifspecial", self.sid, d])
         return bool(d)
 
     def to_cell(self):
@@ -434,19 +471,29 @@ def install_stubs(classes):
 
 def make_stub(name, orig_func, current):
     def stub(cls, cell_slice, *args, **kwargs):
-        if isinstance(cell_slice, SymSlice) and current["name"] != name:
+        if isinstance(cell_slice, SymSlice) and (current["name"] or "").split("(")[0] != name:
             if kwargs:
                 raise Unsupported(f"nested {name}.deserialize with keyword arguments")
+            conc = []
             for a in args:
-                if isinstance(a, (SymVal, SymDerived)):
-                    raise Unsupported(f"nested {name}.deserialize with a symbolic argument")
-            var = T.op(cell_slice.sid, "call", [name] + [a for a in args])
+                if isinstance(a, SymVal) and a.kind in ("bit", "bool"):
+                    conc.append(int(bool(a)))
+                elif isinstance(a, (SymVal, SymDerived)) or callable(a):
+                    raise Unsupported(f"nested {name}.deserialize with a symbolic or functional argument")
+                elif isinstance(a, (bool, int)):
+                    conc.append(int(a))
+                else:
+                    raise Unsupported(f"nested {name}.deserialize with argument {a!r}")
+            CALL_ARGS.setdefault(name, set()).add(tuple(conc))
+            var = T.op(cell_slice.sid, "call", [name] + conc)
             v = SymVal(var, "obj")
             v._event_index = len(T.events) - 1
             return v
         return orig_func(cls, cell_slice, *args, **kwargs)
     return classmethod(stub)
 
+
+CALL_ARGS = {}
 
 MODULES = ["pytoniq_core.tlb.transaction", "pytoniq_core.tlb.account", "pytoniq_core.tlb.block",
            "pytoniq_core.tlb.utils", "pytoniq_core.tlb.config", "pytoniq_core.tlb.vm_stack",
@@ -477,6 +524,7 @@ def trace_all(only=None):
         if is_cm:
             setattr(cls, "deserialize", make_stub(name, func, current))
     result, failed = {}, {}
+    deferred = []
     try:
         for name, cls in classes.items():
             if only and name not in only:
@@ -488,7 +536,7 @@ def trace_all(only=None):
             import inspect
             params = list(inspect.signature(func).parameters)
             if len(params) != 2:
-                failed[name] = "deserialize takes extra parameters: " + ",".join(params[2:])
+                deferred.append((name, cls, func, params))
                 continue
             current["name"] = name
             try:
@@ -497,6 +545,21 @@ def trace_all(only=None):
                 failed[name] = str(e)
             except Exception as e:
                 failed[name] = f"{type(e).__name__}: {e}"
+        # parametrised deserialisers: one tree per concrete argument tuple seen at a call site
+        for name, cls, func, params in deferred:
+            argsets = sorted(CALL_ARGS.get(name, ()))
+            if not argsets:
+                failed[name] = "deserialize takes extra parameters (" + ",".join(params[2:]) + ") and no traced call site fixes them"
+                continue
+            for args in argsets:
+                key = name + "(" + ",".join(str(a) for a in args) + ")"
+                current["name"] = key
+                try:
+                    result[key] = explore(lambda s, f=func, c=cls, a=args: f(c, s, *a))
+                except Unsupported as e:
+                    failed[key] = str(e)
+                except Exception as e:
+                    failed[key] = f"{type(e).__name__}: {e}"
     finally:
         for name, cls in classes.items():
             setattr(cls, "deserialize", originals[name][0])
